@@ -30,7 +30,7 @@ m = {
         {"name": "go-harness", "path": "harness/", "serves_properties": sorted(props), "kind_free_text": "grammar enumeration, run of the current generator, reflection-based value construction, in-process execution of the real inspectors"},
     ],
     "checks": checks,
-    "notes": "See DESIGN.md. known_findings.json lists the genuine defects recorded rather than repaired.",
+    "notes": "See DESIGN.md (section 15 = as built). known_findings.json lists the genuine defects: open classes are recorded findings; entries marked fixed were repaired by unguarded `fix:` commits in /repo (git -C /repo log --grep=^fix:).",
     "not_applicable": na,
 }
 json.dump(m, open(os.path.join(V, "MANIFEST.json"), "w"), indent=1)
